@@ -29,7 +29,7 @@ CHECKS = {
          "DESIGN.md §3 C19"),
  "C03": ("model_checking",
          "exhaustive enumeration of validated configurations x inflow histories on real-store branches",
-         "The complete product alphabet of 1- and 2-sub-distributor configurations (12 source lists incl. multi-source and both orders, 7 primaries incl. MAIN / internal / identifier reuse, named shares, burn share) plus 3-sub-distributor chain and fan-in templates is filtered by the real Params.Validate (2.3M candidates quick, 40k accepted); for each accepted configuration every history of 2 (quick) / 3 (thorough) blocks over multi-denomination inflow patterns into every source is run through the real cfedistributor.BeginBlocker; after every block: remains non-negative, sum integral and equal to the main account balance, both registered invariants hold, no panic.",
+         "The complete product alphabet of 1- and 2-sub-distributor configurations (12 source lists incl. multi-source and both orders, 7 primaries incl. MAIN / internal / identifier reuse, named shares, burn share) plus 3-sub-distributor chain and fan-in templates is filtered by the real Params.Validate (2.3M candidates quick, 40k accepted); for each accepted configuration every history of 2 blocks (quick; thorough: 2 blocks over the wide alphabet of ~1.4 million accepted configurations, 3 blocks over the configurations of the quick alphabet) over multi-denomination inflow patterns into every source (incl. one that feeds the first source only) is run through the real cfedistributor.BeginBlocker; after every block: remains non-negative, sum integral and equal to the main account balance, both registered invariants hold, no panic.",
          "Module level: only the distributor's BeginBlocker runs; inflows placed directly; amounts from the listed patterns.",
          "DESIGN.md §3 C03"),
  "C04": ("model_checking",
